@@ -155,3 +155,15 @@ package internal
 
 // A slot's descriptor is fixed when its owner is constructed.
 //@ immutable [C01,C03,C13] Slot.Fd constructors newFile, NewEventFd, NewPipe, NewAsyncAdapter, NewUDPPeer, NewTimer, Listen, NewPacketConn
+
+// Address conversion helpers: outside the claim (type switches over net.Addr implementations);
+// they allocate and return, and write nothing that existed before.
+//@ func ToSockaddr
+//@   trusted
+//@   modifies nothing
+//@ func FromSockaddr
+//@   trusted
+//@   modifies nothing
+//@ func SocketAddress
+//@   trusted
+//@   modifies nothing
